@@ -7,7 +7,7 @@ trap 'git -C /repo worktree remove --force $WT 2>/dev/null' EXIT
 cd $WT
 /venv/bin/python $SRC/demo.py $WT >/tmp/seedv-$ID.pristine.log 2>&1; rc_pristine=$?
 git apply $SRC/patch.diff || { echo "patch does not apply"; exit 2; }
-/tmp/seed2/run_tests.sh $WT > /tmp/seedv-$ID.tests.log 2>&1; rc_tests=$?
+/verif/bin/seed_tests.sh $WT > /tmp/seedv-$ID.tests.log 2>&1; rc_tests=$?
 /venv/bin/python $SRC/demo.py $WT >/tmp/seedv-$ID.patched.log 2>&1; rc_patched=$?
 echo "$ID tests_rc=$rc_tests demo_pristine_rc=$rc_pristine demo_patched_rc=$rc_patched"
 if [ $rc_tests = 0 ] && [ $rc_pristine = 0 ] && [ $rc_patched = 1 ]; then
